@@ -22,7 +22,10 @@ def _rename(rng, d, prefix='p'):
     perm = list(range(len(d['Q'])))
     rng.shuffle(perm)
     m = {q: '%s%d' % (prefix, perm[i]) for i, q in enumerate(d['Q'])}
-    return {'Q': [m[q] for q in d['Q']], 'Sigma': list(d['Sigma']), 'delta': [[m[q], a, m[t]] for (q, a, t) in d['delta']], 'q0': m[d['q0']], 'F': [m[q] for q in d['F']]}
+    sg = list(d['Sigma'])
+    if rng.random() < 0.5:
+        sg.reverse()         # the alphabet of the second automaton is another set object, filled in another order
+    return {'Q': [m[q] for q in d['Q']], 'Sigma': sg, 'delta': [[m[q], a, m[t]] for (q, a, t) in d['delta']], 'q0': m[d['q0']], 'F': [m[q] for q in d['F']]}
 
 
 def _mutate(rng, d):
@@ -73,7 +76,7 @@ def gen(rng, tier):
         d2 = rng.choice([x for x in pool if x['Sigma'] == d1['Sigma']])
         cases.append({'D1': d1, 'D2': _rename(rng, d2)})
     for _ in range(400 if quick else 5000):
-        sigma = rng.choice(['a', 'ab', 'abc'])
+        sigma = rng.choice(['a', 'ab', 'abc', 'abcd', 'xyz'])
         d1 = G.random_dfa(rng, rng.randint(1, 6), sigma)
         x = rng.random()
         if x < 0.3:
